@@ -66,6 +66,7 @@ def gen_case(rnd, tier: str, i: Any) -> Dict[str, Any]:
     first_step = gen_sim.pick_first_step(rnd)
     n_steps = rnd.choice([0, 1, 2, 3])
     files = {}
+    zero_tie = False
     for r in range(n_ranks):
         p = gen_sim.random_params(rnd, tier, rank=r, first_step=first_step, n_steps=n_steps, p_sync=rnd.choice([0.0, 0.1]), exotic_launch=rnd.random() < 0.3,
                                   ops_per_step=rnd.choice([(2, 5), (3, 8), (6, 12)]))
@@ -78,6 +79,17 @@ def gen_case(rnd, tier: str, i: Any) -> Dict[str, Any]:
                 if e.get("ph") == "X" and e.get("cat") in ("kernel", "gpu_memcpy", "gpu_memset") and rnd.random() < 0.4:
                     e["pid"] = 1
                     e["args"]["device"] = 1
+        if rnd.random() < 0.25:
+            # a zero-duration kernel starting in the very instant the next kernel of its stream starts (no overlap), written after or
+            # before it in the file: the gaps are those between consecutive kernels, whatever the file order
+            ks = [e for e in tr["traceEvents"] if e.get("ph") == "X" and e.get("cat") == "kernel" and e.get("dur", 0) > 0]
+            if ks:
+                K = rnd.choice(ks)
+                Z = {"ph": "X", "cat": "kernel", "name": "zero_len_kernel", "pid": K["pid"], "tid": K["tid"], "ts": K["ts"], "dur": 0,
+                     "args": {"stream": K["args"]["stream"], "device": K["args"].get("device", 0)}}
+                pos = tr["traceEvents"].index(K) + rnd.choice([0, 1, 1])
+                tr["traceEvents"].insert(max(1, pos), Z)
+                zero_tie = True
         if rnd.random() < 0.3:
             gen_sim.add_device_spans(rnd, tr)        # GPU-side annotations / profiler ranges on the kernels' streams
         files[f"rank{r}.json"] = tr
@@ -86,7 +98,7 @@ def gen_case(rnd, tier: str, i: Any) -> Dict[str, Any]:
         for r in range(1, n_ranks):
             files[f"rank{r}.json"] = gen_sim.clone_reordered(rnd, files["rank0.json"], r)
     # thresholds are completed in run_case from the actual gaps (they depend on the loaded view)
-    return {"files": files, "cfg": {"rank_sel": rnd.random(), "stream_sel": rnd.random(), "thr_sel": rnd.random(), "thr_mode": rnd.choice(["gap", "gap", "gap+1", "0", "1", "30", "1e9"]),
+    return {"files": files, "zero_tie": zero_tie, "cfg": {"rank_sel": rnd.random(), "stream_sel": rnd.random(), "thr_sel": rnd.random(), "thr_mode": rnd.choice(["gap", "gap", "gap+1", "0", "1", "30", "1e9"]),
                                     "stats": rnd.random() < 0.5},
             "more_cfgs": [{"rank_sel": rnd.random(), "stream_sel": rnd.random(), "thr_sel": rnd.random(), "thr_mode": rnd.choice(["gap", "gap+1", "0", "30", "1e9"]),
                            "stats": rnd.random() < 0.5} for _ in range(rnd.choice([0, 0, 1, 2]))]}
@@ -98,7 +110,7 @@ def run_case(case: Dict[str, Any], ctx: Any) -> core.CaseResult:
     models = {}
     for fn, tr in case["files"].items():
         m = raw.model(tr["traceEvents"])
-        why = wf.well_formed(m, tr["traceEvents"]) or wf.causal(m)
+        why = wf.well_formed(m, tr["traceEvents"]) or wf.causal(m, zero_len_shared_start_ok=True)
         if why:
             res.discarded, res.discard_reason = True, "out of regime: " + why.split(":")[0][:50]
             return res
